@@ -326,6 +326,28 @@ def run_case(c):
                 raw = str(m.msg)
             msgs.append((m.sender, m.recipient, m.msg.symbol.name(), raw, m.msg))
     stats["messages_checked"] += len(msgs)
+    if g is not None:
+        # log-only oracle (also when no interaction was yielded): every clear_by_party must consume exactly one whole
+        # message of that sender -- no more (next message eaten) and no less (a tail left in the buffer)
+        try:
+            model_l = from_fandango(g)
+            by_sender = {}
+            for pnt in g.get_protocol_messages():
+                by_sender.setdefault(pnt.sender, set()).add(pnt.non_terminal.name() if hasattr(pnt, "non_terminal") else pnt.symbol.name())
+        except Exception:
+            model_l, by_sender = None, {}
+        if model_l is not None:
+            from vf.gen import inputs as _inp
+            for e in events:
+                if e[1] != "consume" or not e[4]:
+                    continue
+                chunk = (b"" if binary else "").join(fr for (_s, _r, fr) in e[4])
+                stats["consume_events_checked"] += 1
+                names = by_sender.get(e[2], set())
+                word = _inp.from_input(chunk, model_l.binary) if isinstance(chunk, bytes) == model_l.binary else None
+                if word is None or not any(model_l.accepts(word, n_) for n_ in names):
+                    violations.append({"what": f"clear_by_party({e[2]}, {e[3]}) consumed {chunk!r}, which is not exactly one message of {e[2]} ({sorted(names)})", "mech": None})
+                    break
     if g is not None and result is not None:
         # (1) prefix validity + derivations
         model = from_fandango(g)
